@@ -43,6 +43,19 @@ def lag_pairs(rng, tier):
         c = copy.deepcopy(base)
         c['setup']['axial_mesh_size'] = dz
         out.append((name, c))
+    # temperature-dependent coolant in the un-rodded models, adiabatic and
+    # coupled: every step within the property-lag bound of that step
+    from harness.scenarios import add_regions
+    for nm, gm in (('adiabatic', 'none'), ('flowgap', 'flow')):
+        t = add_regions(scenarios.bundle_type(2), 0.6,
+                        lower=dict(model='simple', vf_coolant=0.3),
+                        upper=dict(model='6node', vf_coolant=0.35))
+        c = scenarios.make_core(rng, {'a1': t}, [(1, 1, 'a1')],
+                                [scenarios.flow_for(t)], gap_model=gm,
+                                bypass_fraction=(0.05 if gm == 'flow' else 0),
+                                coolant='sodium', ncell=3,
+                                cell_bounds=[0.0, 0.15, 0.45, 0.6])
+        out.append((f'lag-regions-{nm}', c))
     return out
 
 
